@@ -1,6 +1,6 @@
 #!/bin/bash
 # runs every claimed check (quick tier by default) against the current /repo tree, sequentially
-cd /verif
+cd "$(dirname "$0")/.."
 tier=${1:-quick}
 rc=0
 for id in $(python3 -c "import json;print(' '.join(c['property_id'] for c in json.load(open('MANIFEST.json'))['checks']))"); do
